@@ -291,6 +291,7 @@ pub fn endpoints() -> Vec<Ep> {
     }
     crate::for_each_endpoint!(push_ep);
     crate::synthetic::push_all(&mut EPS);
+    crate::glue::push_all(&mut EPS);
     for e in &mut EPS {
         // `stringify!` puts spaces around `::`
         let n: String = e.name.chars().filter(|c| !c.is_whitespace()).collect();
